@@ -90,7 +90,7 @@ pub fn eval_on(sess: &jr::Session, code: &str, max_stack: usize) -> Outcome {
 	let state = sess.state.clone();
 	let r = guarded(|| {
 		let _e = state.enter();
-		let _l = limit_stack_depth(max_stack);
+		let _l = (max_stack > 0).then(|| limit_stack_depth(max_stack));
 		match state.evaluate_snippet("prog.jsonnet", code).and_then(|v| v.manifest(JsonFormat::minify())) {
 			Ok(s) => Outcome::Val(s),
 			Err(e) => jr::outcome_of_err(&e),
